@@ -71,6 +71,11 @@ def cases(tier):
                             if pax is not None:
                                 sp[pax] = "U"
                         out.append({"grid": U.spec(cls, shape, tuple(sp), org), "setup": setup, "part": "units", "tier": tier})
+        # grids built with the (N, L) constructor form (unequal cell widths per axis)
+        for shape in sorted(set(SHAPES[d] + LIN_SHAPES[d])):
+            for setup in SETUPS:
+                out.append({"grid": U.spec(cls, shape, ("L",) * d, 0), "setup": setup, "part": "units", "tier": tier})
+            out.append({"grid": U.spec(cls, shape, ("L",) * d, 0), "part": "opunits"})
         for shape in LIN_SHAPES[d]:
             for t in templates:
                 for org in (0, 1):
@@ -86,6 +91,11 @@ def weight(case):
 
 def scaled_mesh(spec, L):
     kinds = U.AXES[spec["cls"]]
+    if spec["sp"][0] == "L":
+        # the (N, L) constructor form, with a different cell width on every axis (lengths 0.25 N (1 + axis/2))
+        return getattr(pf, spec["cls"])(*[int(n) for n in spec["shape"]],
+                                        *[U.length(k, n) * ((1.0 + 0.5 * ax) * L if k in ("lin", "rad") else 1.0)
+                                          for ax, (k, n) in enumerate(zip(kinds, spec["shape"]))])
     fc = U.spec_faces(spec)
     fc = [f * L if k in ("lin", "rad") else f for f, k in zip(fc, kinds)]
     return getattr(pf, spec["cls"])(*fc)
